@@ -667,3 +667,12 @@ package xpath
 //@   loop 1 invariant implies(1 <= lc && lc < 128, asciiAt(x.line, len(x.line)-len(line)-1, lc, line) && skipTo(x.line, len(x.line)-len(line)-1-looppos) && matched(x.line, len(x.line)-len(line)-1-looppos, expr, looppos))
 //@   loop 1 invariant implies(lc >= 128, exists(c, 0, len(x.line), skipTo(x.line, c) && c+looppos < len(x.line) && x.line[c+looppos] >= 128 && matched(x.line, c, expr, looppos)))
 //@   loop 1 invariant implies(lc == 0, exists(c, 0, len(x.line)+1, skipTo(x.line, c) && (c+looppos == len(x.line) || (c+looppos < len(x.line) && x.line[c+looppos] == 0)) && matched(x.line, c, expr, looppos)))
+
+// A result accessor never panics: asking for the node-set of a number, boolean or string result is an error.
+//@ func (Datum).Nodeset
+//@   params context
+//@ func (*Result).GetNodeSetResult
+//@   requires res != nil
+//@   nopanic
+//@   ensures implies(res.runErr != nil, result1 == res.runErr)
+//@   ensures implies(res.runErr == nil && res.value == nil, result1 != nil)
